@@ -304,6 +304,20 @@ func matrix(rng *rand.Rand, extra int) []reqSpec {
 			out = append(out, reqSpec{"controller", st + "+" + pre.Method + "|" + pre.Path + "|" + orDash(pre.Action), "GET", "/v1/replicas", "empty", ""})
 		}
 	}
+	// overlapping adds of one address (both inside factory.Create at the same time), then every state-changing route
+	for _, st := range []string{"started", "full"} {
+		for _, ovl := range []string{"OVL-dd", "OVL-qq", "OVL-dq"} {
+			id7 := base64.StdEncoding.EncodeToString([]byte(wip("tcp://127.%W%.9.7:9502")))
+			for _, r := range []reqSpec{
+				{"controller", "", "PUT", "/v1/replicas/" + id7, "valid", "c-update"}, {"controller", "", "DELETE", "/v1/replicas/" + id7, "valid", ""},
+				{"controller", "", "POST", "/v1/replicas", "valid", "c-replica"}, {"controller", "", "POST", "/v1/quorumreplicas", "valid", "c-replica"},
+				{"controller", "", "POST", "/v1/replicas/" + id7 + "?action=verifyrebuild", "valid", ""},
+				{"controller", "", "POST", "/v1/volumes/dg==?action=snapshot", "valid", "c-snapshot"}, {"controller", "", "GET", "/v1/replicas", "empty", ""},
+				{"controller", "", "POST", "/v1/volumes/dg==?action=shutdown", "valid", ""}} {
+				out = append(out, reqSpec{"controller", st + "+" + ovl + "|-|-", r.Method, r.Path, r.Body, r.Action})
+			}
+		}
+	}
 	for _, st := range []string{"closed", "open", "rebuilding"} {
 		for _, pre := range replicaActions {
 			for _, a := range replicaActions {
@@ -359,9 +373,13 @@ func setupReplica(state string) (*replica.Server, http.Handler, func()) {
 	return s, rrest.NewRouter(rrest.NewServer(s)), cleanup
 }
 
+// the scripted world of the controller under test (the overlap pairs hold factory.Create through it)
+var ctlWorld *fake.World
+
 func setupController(state string) (*controller.Controller, http.Handler, func()) {
 	os.Setenv("REPLICATION_FACTOR", "3")
 	w := fake.NewWorld()
+	ctlWorld = w
 	fake.SetWorld(w)
 	c := controller.NewController(controller.WithName("v"), controller.WithBackend(&fake.Factory{W: w}),
 		controller.WithFrontend(&fake.Frontend{W: w}, "127.0.0.1"), controller.WithRF(3))
@@ -469,7 +487,48 @@ func doOne(r reqSpec, out *bufio.Writer) {
 		srv.Start()
 		defer srv.Close()
 		cl := &http.Client{Timeout: 6 * time.Second}
-		if pre != nil {
+		if pre != nil && strings.HasPrefix(pre[0], "OVL-") && r.Target == "controller" {
+			// two add requests for the SAME address overlapping: both are held inside factory.Create (the
+			// controller calls it outside its lock), then both are let go; the main request follows
+			addr := wip("tcp://127.%W%.9.7:9502")
+			send := func(path string, done chan struct{}) {
+				defer close(done)
+				if req, err := http.NewRequest("POST", srv.URL+path, body("valid", "c-replica")); err == nil {
+					req.Header.Set("Content-Type", "application/json")
+					if resp, err := cl.Do(req); err == nil {
+						io.Copy(io.Discard, resp.Body)
+						resp.Body.Close()
+					}
+				}
+			}
+			paths := map[string][2]string{"OVL-dd": {"/v1/replicas", "/v1/replicas"}, "OVL-qq": {"/v1/quorumreplicas", "/v1/quorumreplicas"},
+				"OVL-dq": {"/v1/replicas", "/v1/quorumreplicas"}}[pre[0]]
+			var gates []chan struct{}
+			var dones []chan struct{}
+			for _, p := range paths {
+				g, d := make(chan struct{}), make(chan struct{})
+				ctlWorld.SetGate(addr, g)
+				go send(p, d)
+				select {
+				case <-ctlWorld.Entered:
+					gates = append(gates, g)
+				case <-d: // refused before it reached Create
+					ctlWorld.SetGate(addr, nil)
+				case <-time.After(3 * time.Second):
+					ctlWorld.SetGate(addr, nil)
+				}
+				dones = append(dones, d)
+			}
+			for _, g := range gates {
+				close(g)
+			}
+			for _, d := range dones {
+				select {
+				case <-d:
+				case <-time.After(5 * time.Second):
+				}
+			}
+		} else if pre != nil {
 			// the earlier request of a pair; what it answers is judged where it is sent alone
 			if req, err := http.NewRequest(pre[0], srv.URL+pre[1], body("valid", pre[2])); err == nil {
 				req.Header.Set("Content-Type", "application/json")
